@@ -155,6 +155,13 @@ def pMatInput (routine : String) : P (Nat × Nat × Nat × List (List Int) × Li
     let a ← pMat nr nc
     pure (nr, nc, 0, a, [])
 
+/-- every integer token of a model payload lies in the `i64` range -/
+def fitsI64 (payload : String) : Bool :=
+  (toks payload).all fun t =>
+    match t.toInt? with
+    | some v => PRC.inI64 v
+    | none => true
+
 def bad : String × String := ("-", fail "driver-cannot-parse-input")
 
 def matCase {α β} (me : ME α) (meIdeal : Option (ME α)) (se : SE β) (routine : String)
@@ -166,13 +173,22 @@ def matCase {α β} (me : ME α) (meIdeal : Option (ME α)) (se : SE β) (routin
     match runModel me routine nr nc k a b with
     | none => bad
     | some m =>
-      -- machine integers (DESIGN §5.6): if the overflow-checked model and the idealised
-      -- integer model differ, an intermediate left the 63-bit range; the property's
-      -- "exact value" cannot be asked of a type that cannot hold it: case excluded.
-      let overflow := match meIdeal with
-        | some mi => runModel mi routine nr nc k a b != some m
-        | none => false
-      if overflow then ("-", ok) else (m, runSpec se routine nr nc k a b out)
+      -- machine integers: if the overflow-checked model and the idealised integer model
+      -- differ, an intermediate of the i64 elimination left the 63-bit range.
+      --  * the exact answer (idealised model) itself does not fit i64: the property's "exact
+      --    value" cannot be asked of a type that cannot hold it — case excluded (DESIGN §5.6);
+      --  * the exact answer fits, yet the implementation panics / answers something else:
+      --    `fail machine-integer-overflow` (known finding F-C18-overflow, by cause class).
+      match meIdeal with
+      | none => (m, runSpec se routine nr nc k a b out)
+      | some mi =>
+        match runModel mi routine nr nc k a b with
+        | none => bad
+        | some exact =>
+          if exact == m then (m, runSpec se routine nr nc k a b out)
+          else if !fitsI64 exact then ("-", ok)
+          else if (toks exact) == out then ("-", runSpec se routine nr nc k a b out)
+          else ("-", fail "machine-integer-overflow")
 
 /-! ### prime residue classes -/
 
